@@ -905,6 +905,8 @@ class Evaluator:
         if isinstance(recv, Toks) and name == "is_empty":
             if all(t[0] == "lit" for t in recv.toks):
                 return len(recv.toks) == 0
+        if isinstance(recv, SymObj) and recv.path == "Default::default()" and name in ("is_empty", "len"):
+            return True if name == "is_empty" else 0
         # effects on symbolic objects
         if isinstance(recv, SymObj):
             self.effects.append((recv.path, name, [vkey(a) for a in args]))
